@@ -537,8 +537,10 @@ impl<T: Buf> MakeFragments<T> {
 
 //@ contract Fragments::try_make_fragments
     ensures
-        // ids wrap around after 65536 frames instead of trapping
-        *final(next_id) == (if *old(next_id) == 0xffff { 0u16 } else { (*old(next_id) + 1) as u16 }),
+        // ids wrap around after 65536 frames instead of trapping; an id is consumed whenever fragments are produced
+        // (a frame refused before fragmentation may or may not consume one)
+        ret.is_some() ==> *final(next_id) == (if *old(next_id) == 0xffff { 0u16 } else { (*old(next_id) + 1) as u16 }),
+        *final(next_id) == *old(next_id) || *final(next_id) == (if *old(next_id) == 0xffff { 0u16 } else { (*old(next_id) + 1) as u16 }),
         // Some: a well-formed fragmenter over the frame's buffer, labelled with the id that was current
         ret.is_some() ==> ret.unwrap().fresh(*old(next_id), mtu),
         // a usable mtu is never refused for a frame that fits (no spurious refusal is stated by MakeFragments::new)
